@@ -57,6 +57,8 @@ structure SpecValid (bound : Bool) (n : Node) (b : Cand) : Prop where
   height : b.height = n.tipHeight + 1
   link : b.prevID = n.tipID
   lengths : b.prevID.length = 32 ∧ b.gen.length = 20 ∧ b.sigLen = 64
+  /-- the header carries a 32-byte state root (an empty one would switch the application's comparison off) -/
+  stateRootLength : b.stateRootLen = 32
   slotLater : slotOf n.cfg n.tipTimestamp < slotOf n.cfg b.timestamp
   notFuture : slotOf n.cfg b.timestamp ≤ slotOf n.cfg n.cfg.now
   /-- the generator assigned to the slot … -/
@@ -100,7 +102,7 @@ theorem applyBlock_err (n : Node) (b : Cand) :
 
 theorem validateChecks_all (b : Cand) :
     (∀ p ∈ validateChecks b, p.2 = true) ↔
-      (b.prevID.length = 32 ∧ b.gen.length = 20 ∧ b.sigLen = 64) ∧ (∀ v ∈ b.txStatic, v = true) ∧
+      (b.prevID.length = 32 ∧ b.gen.length = 20 ∧ b.sigLen = 64 ∧ b.stateRootLen = 32) ∧ (∀ v ∈ b.txStatic, v = true) ∧
       b.txRootOK = true ∧ b.assets = AssetsV.ok ∧ b.assetRootOK = true := by
   unfold validateChecks
   simp only [List.cons_append, List.nil_append, List.forall_mem_cons, List.forall_mem_append,
@@ -108,10 +110,10 @@ theorem validateChecks_all (b : Cand) :
   have ha : (b.assets ≠ AssetsV.unsorted ∧ b.assets ≠ AssetsV.duplicate) ↔ b.assets = AssetsV.ok := by
     cases b.assets <;> simp
   constructor
-  · rintro ⟨h1, h2, h3, h4, h5, h6, h7, h8, _⟩
-    exact ⟨⟨h1, h2, h3⟩, h4, h5, ha.mp ⟨h6, h7⟩, h8⟩
-  · rintro ⟨⟨h1, h2, h3⟩, h4, h5, h6, h7⟩
-    exact ⟨h1, h2, h3, h4, h5, (ha.mpr h6).1, (ha.mpr h6).2, h7, by simp⟩
+  · rintro ⟨h1, h2, h3, h3', h4, h5, h6, h7, h8, _⟩
+    exact ⟨⟨h1, h2, h3, h3'⟩, h4, h5, ha.mp ⟨h6, h7⟩, h8⟩
+  · rintro ⟨⟨h1, h2, h3, h3'⟩, h4, h5, h6, h7⟩
+    exact ⟨h1, h2, h3, h3', h4, h5, (ha.mpr h6).1, (ha.mpr h6).2, h7, by simp⟩
 
 theorem acChecks_all (n : Node) (ac : AC) :
     (∀ p ∈ acChecks n n.bft ac, p.2 = true) ↔ ACValid n.cfg.acBound n ac := by
@@ -173,10 +175,10 @@ theorem accepts_iff (n : Node) (b : Cand) : accepts n b ↔ SpecValid n.cfg.acBo
   unfold checkList
   simp only [List.forall_mem_append, validateChecks_all, verifyChecks_all, execChecks_all]
   constructor
-  · rintro ⟨⟨⟨hl, hs, h3, h4, h5⟩, v1, v2, v3, v4, v5, v6, v7, v8, v9, v10, v11⟩, e1, e2, e3, e4⟩
-    exact ⟨v1, v2, v3, hl, v6, v5, v7, v11, v8, v9, v10, h3, h4, h5, e3, e2, e4, hs, v4, e1⟩
+  · rintro ⟨⟨⟨⟨l1, l2, l3, l4⟩, hs, h3, h4, h5⟩, v1, v2, v3, v4, v5, v6, v7, v8, v9, v10, v11⟩, e1, e2, e3, e4⟩
+    exact ⟨v1, v2, v3, ⟨l1, l2, l3⟩, l4, v6, v5, v7, v11, v8, v9, v10, h3, h4, h5, e3, e2, e4, hs, v4, e1⟩
   · intro h
-    exact ⟨⟨⟨h.lengths, h.transactionsStatic, h.transactionRoot, h.assets, h.assetRoot⟩,
+    exact ⟨⟨⟨⟨h.lengths.1, h.lengths.2.1, h.lengths.2.2, h.stateRootLength⟩, h.transactionsStatic, h.transactionRoot, h.assets, h.assetRoot⟩,
       h.version, h.height, h.link, h.payloadSize, h.notFuture, h.slotLater, h.generator,
       h.maxHeightPrevoted, h.notContradicting, h.aggregateCommit, h.signature⟩,
       h.executes, h.validatorsHash, h.eventRoot, h.stateRoot⟩
